@@ -158,6 +158,11 @@ class ListField(Field):
                 self.storage_type = List[type(field)]  # type: ignore
 
     def __setdefault__(self, cfg: Config) -> None:
+        default = self._get_env_value(cfg)
+        if default is not None:
+            cfg._set_default_value(self._key, default)
+            return
+
         default = self.default
         if isinstance(default, list):
             if self.field:
